@@ -10,6 +10,10 @@ import GraphiqModel.Proofs.StateToGraphAdjugate
 import GraphiqModel.Proofs.StateToGraphDensity
 import GraphiqModel.Proofs.StateToGraphNegativity
 import GraphiqModel.Proofs.StateToGraphHilbert
+import GraphiqModel.Proofs.StateToGraphGaugeIndep
+import GraphiqModel.Proofs.StateToGraphTableau
+import GraphiqModel.Proofs.StateToGraphPairMatrix
+import GraphiqModel.Proofs.StateToGraphSpectrum
 import GraphiqModel.Proofs.GraphStateGroup
 namespace Graphiq.C08
 open Graphiq Graphiq.PRow Graphiq.Tab Graphiq.STab
@@ -130,6 +134,22 @@ theorem state_to_graph_correct (t : STab) (hn : 0 < t.n) (hstate : IsStabilizerS
       (∀ i j, i < t.n → j < t.n → adj.f i j = adj.f j i) ∧ (∀ i, i < t.n → adj.f i i = false) := by
   obtain ⟨adj, gates, h⟩ := state_to_graph_exact_complete t hn hstate
   exact ⟨adj, gates, h, state_to_graph_sound S2G.gf2InvF t hstate.1.real adj gates h⟩
+
+/-- **`state_to_graph` on a `CliffordTableau`** (the code converts `tableau.to_stabilizer()`; every n ≥ 1): the stabilizer half of every
+    VALID Clifford tableau — the invariant `Tab.Valid` (the 2n rows form a symplectic basis), which `C07.history_valid` proves for every
+    tableau reachable from a valid one by gates, measurements, resets, insertions, removals, partial traces — is a stabilizer state in
+    the sense of `IsStabilizerState` (each destabilizer row anticommutes with exactly one stabilizer row, so the stabilizer rows are
+    independent), hence it is converted, exactly: `state_to_graph` returns on every tableau the simulator can hold -/
+theorem state_to_graph_complete_on_valid_tableau (T : Tab) (hn : 0 < T.n) (hv : T.Valid) :
+    IsStabilizerState (STab.ofTab T) ∧
+    ∃ adj gates, S2G.stateToGraph (STab.ofTab T) = .ok (adj, gates) ∧
+      ∀ p, ((STab.ofTab T).runCircuit gates).Spn p ↔ (graphSTab T.n adj.f).Spn p := by
+  have hs : IsStabilizerState (STab.ofTab T) := ofTab_good_indep T hv
+  obtain ⟨adj, gates, h, hsound, _⟩ := state_to_graph_correct (STab.ofTab T) hn hs
+  exact ⟨hs, adj, gates, h, hsound.2⟩
+
+/-- non-vacuity: the Clifford tableau of `|0⟩⊗|0⟩` (destabilizers `X_i`, stabilizers `Z_i`) is valid -/
+example : 0 < (Tab.ket0 2).n ∧ (Tab.ket0 2).Valid := ⟨by decide, (Tab.isSymplectic_iff _).mp (by decide)⟩
 
 /-- `state_to_graph_exact_complete` with the hypothesis spelled out in primitive terms (no auxiliary definitions): the rows carry no
     i-phase, their symplectic products vanish pairwise, and a GF(2) combination of the rows `[x | z]` vanishes only trivially -/
@@ -306,6 +326,59 @@ theorem graph_round_trip (n : Nat) (hn : 0 < n) (adj : Adj) (hsym : ∀ i j, i <
     (∃ g, S2G.stabilizerToGraph (graphSTab n adj) = .ok g ∧ ∀ i j, i < n → j < n → g.f i j = adj i j) :=
   ⟨stateToGraph_graph n hn adj hsym hirr, stabilizerToGraph_graph n hn adj hsym hirr⟩
 
+/-- **`state_to_graph` depends only on the state, not on the generating set** (every n ≥ 1): two tableaux of real, commuting, independent
+    generators that generate the same signed group are converted to the SAME graph with the SAME gate list (independence of the second
+    generating set follows from that of the first and is part of the conclusion).  (The Hadamard positions are
+    the columns without pivot of the echelon form of the X part, and pivot columns are determined by the row space `{g.x : g ∈ group}`;
+    `final_z` is the unique `C` with `z = x·C` on the transformed group; the sign-fixing `Z` gates are read off the canonical form, which is
+    unique for the group.)  `stabilizer_to_graph_complete` below is the instance "one of the two is the graph gauge". -/
+theorem state_to_graph_depends_only_on_state (t t' : STab) (hn : 0 < t.n) (hstate : IsStabilizerState t)
+    (hgood' : t'.Good) (hsame : t.n = t'.n ∧ ∀ p, t.Spn p ↔ t'.Spn p) :
+    IsStabilizerState t' ∧ S2G.stateToGraph t = S2G.stateToGraph t' :=
+  have hs : SpanEq t t' := ⟨hsame.1, fun p => (hsame.2 p).1, fun p => (hsame.2 p).2⟩
+  have hi' := indep_of_spanEq t t' hn hstate.1 hgood' hstate.2 hs
+  ⟨⟨hgood', hi'⟩, stateToGraph_gauge_indep t t' hn hstate.1 hgood' hstate.2 hi' hs⟩
+
+/-- non-vacuity of `state_to_graph_depends_only_on_state`: `⟨XX, −ZZ⟩` (`bellMinus`) and `⟨YY, −ZZ⟩` are two different generating sets
+    of one state (`YY = XX · (−ZZ)`) -/
+def bellMinusYY : STab :=
+  { n := 2, row := fun i => if i = 0 then ⟨fun j => decide (j < 2), fun j => decide (j < 2), false, false⟩
+                            else ⟨fun _ => false, fun j => decide (j < 2), true, false⟩ }
+example : 0 < bellMinus.n ∧ IsStabilizerState bellMinus ∧ bellMinusYY.Good ∧
+    (bellMinus.n = bellMinusYY.n ∧ ∀ p, bellMinus.Spn p ↔ bellMinusYY.Spn p) ∧
+    ¬ (∀ i, i < 2 → PRow.EqOn 2 (bellMinus.row i) (bellMinusYY.row i)) := by
+  have hs : SpanEq bellMinus bellMinusYY := by
+    apply spanEq_of_gens bellMinus bellMinusYY rfl
+    · intro i hi
+      have : i = 0 ∨ i = 1 := by have : i < 2 := hi; omega
+      rcases this with rfl | rfl
+      · exact InSpan.eqv _ _ (InSpan.mul _ _ (spn_gen bellMinus 0 (by decide)) (spn_gen bellMinus 1 (by decide)))
+          (beqOn_eqOn _ _ _ (by decide))
+      · exact InSpan.eqv _ _ (spn_gen bellMinus 1 (by decide)) (beqOn_eqOn _ _ _ (by decide))
+    · intro i hi
+      have : i = 0 ∨ i = 1 := by have : i < 2 := hi; omega
+      rcases this with rfl | rfl
+      · exact InSpan.eqv _ _ (InSpan.mul _ _ (spn_gen bellMinusYY 0 (by decide)) (spn_gen bellMinusYY 1 (by decide)))
+          (beqOn_eqOn _ _ _ (by decide))
+      · exact InSpan.eqv _ _ (spn_gen bellMinusYY 1 (by decide)) (beqOn_eqOn _ _ _ (by decide))
+  have ind : ∀ t : STab, t.n = 2 → (t.row 0).x 0 = true → (t.row 1).x 0 = false → (t.row 1).z 0 = true → S2G.Indep (S2G.XZ.ofSTab t) := by
+    intro t hn2 h00 h10 h1z c hc i hi
+    have hn' : (S2G.XZ.ofSTab t).n = 2 := hn2
+    rw [hn'] at hc hi
+    have a := (hc 0 (by decide)).1
+    have b := (hc 0 (by decide)).2
+    simp only [parityTo, S2G.XZ.ofSTab, h00, h10, h1z, Bool.and_true, Bool.and_false, Bool.xor_false, Bool.false_xor] at a b
+    have h : i = 0 ∨ i = 1 := by omega
+    rcases h with rfl | rfl
+    · exact a
+    · rw [a] at b; simpa using b
+  refine ⟨by decide, ⟨S2G.good_of_check _ (by decide), ind _ rfl (by decide) (by decide) (by decide)⟩,
+    S2G.good_of_check _ (by decide), ⟨rfl, fun p => ⟨hs.sub p, hs.sup p⟩⟩, ?_⟩
+  intro h
+  have := ((h 0 (by decide)).1 0 (by decide)).2
+  revert this
+  decide
+
 /-- **stabilizer → graph recovers `G` from `|G⟩` presented in ANY generating set** (every n ≥ 1, every simple graph, every real
     commuting tableau `t` that generates the signed group of `|G⟩`): the modelled `stabilizer_to_graph(validate=True)` returns `G`
     — `_graph_finder` returns (completeness), the graph it finds is `G` itself, and the closing comparison of the canonical forms
@@ -318,6 +391,20 @@ theorem stabilizer_to_graph_complete (t : STab) (hn : 0 < t.n) (hg : t.Good) (ad
     (∃ g, S2G.stateToGraph t = .ok (g, []) ∧ ∀ i j, i < t.n → j < t.n → g.f i j = adj i j) :=
   have hs : SpanEq t (graphSTab t.n adj) := ⟨rfl, fun p => (hstate p).1, fun p => (hstate p).2⟩
   ⟨stabilizerToGraph_gauge t hn hg adj hsym hirr hs, stateToGraph_gauge t hn hg adj hsym hirr hs⟩
+
+/-- **`stabilizer_to_graph(validate=True)` returns exactly on the graph states** (every n ≥ 1, real commuting generators): it returns a
+    graph iff the input generates the signed group of `|G⟩` for some simple graph `G` — and then it returns that `G` -/
+theorem stabilizer_to_graph_returns_iff_graph_state (t : STab) (hn : 0 < t.n) (hg : t.Good) :
+    (∃ g, S2G.stabilizerToGraph t = .ok g) ↔
+    ∃ adj : Adj, (∀ i j, i < t.n → j < t.n → adj i j = adj j i) ∧ (∀ i, i < t.n → adj i i = false) ∧
+      ∀ p, t.Spn p ↔ (graphSTab t.n adj).Spn p := by
+  constructor
+  · rintro ⟨g, h⟩
+    obtain ⟨h1, h2, h3⟩ := stabilizer_to_graph_sound t hg.real g h
+    exact ⟨g.f, h2, h3, h1⟩
+  · rintro ⟨adj, h1, h2, h3⟩
+    obtain ⟨⟨g, hgr, _⟩, _⟩ := stabilizer_to_graph_complete t hn hg adj h1 h2 h3
+    exact ⟨g, hgr⟩
 
 /-- non-vacuity of `stabilizer_to_graph_complete`: the graph state of the edge `0 – 1` in the generating set `⟨Y₀Y₁, Z₀X₁⟩`
     (`Y₀Y₁ = X₀Z₁ · Z₀X₁`), which is not the graph gauge -/
@@ -397,11 +484,25 @@ example : (∀ i j, i < 3 → j < 3 → tri i j = tri j i) ∧ (∀ i, i < 3 →
   (Kronecker products of the graphiq gate matrices: `C07.gate_matrices_are_kronecker_products`), `Hilbert.rho n (STab.zero n)` is
   `|0…0⟩⟨0…0|` (`Hilbert.rho_zero`).  `graphStateMat n A := U |0…0⟩⟨0…0| U†` with `U` = `H` on every qubit, then `CZ` on every edge. -/
 
-/-- **graph → stabilizer produces the graph state, as a matrix** (every n, every simple graph): the density matrix of the tableau
-    `[I | A]` is `CZ_E H^{⊗n} |0…0⟩⟨0…0| H^{⊗n} CZ_E` -/
+/-- **graph → stabilizer produces the graph state, as a matrix; stabilizer → density of it is `|G⟩⟨G|`** (every n, every simple graph): the
+    density matrix of the tableau `[I | A]` — `Hilbert.rho`, the ordered product `∏_v (1 + K_v)/2`, which is literally what
+    `_stabilizer_to_density_pure` computes (`rho = rho @ (stabilizer_elem + I)/2` over the generators, `stabilizer_elem` the Kronecker
+    product of Pauli matrices that `C07.pauli_matrix_is_kronecker_product` identifies with `pauliMat`; the sign vector, which that
+    function ignores — D9 —, is zero here) — is `CZ_E H^{⊗n} |0…0⟩⟨0…0| H^{⊗n} CZ_E` -/
 theorem graph_to_stabilizer_is_graph_state (n : Nat) (adj : Adj) (hsym : ∀ i j, i < n → j < n → adj i j = adj j i)
     (hirr : ∀ i, i < n → adj i i = false) : Hilbert.rho n (graphSTab n adj) = graphStateMat n adj :=
   rho_graphSTab n adj hsym hirr
+
+/-- **graph → density matrix produces the graph state, as a matrix** (every n, every simple graph): `_graph_to_density_pure` —
+    `create_n_plus_state(n)` (the matrix with all entries `2⁻ⁿ`: `plusMat`, which is the density matrix of the generators `X_i`:
+    `rho_plusSTab`) conjugated by one CZ per edge of `list(graph.edges)` — is `|G⟩⟨G|`, the same matrix as the density matrix of
+    `graph_to_stabilizer(G)` -/
+theorem graph_to_density_is_graph_state (n : Nat) (adj : Adj) (hsym : ∀ i j, i < n → j < n → adj i j = adj j i)
+    (hirr : ∀ i, i < n → adj i i = false) :
+    Hilbert.circMat n ((S2G.edgesOf n adj).map fun e => Gate.CZ e.1 e.2) * plusMat n *
+        (Hilbert.circMat n ((S2G.edgesOf n adj).map fun e => Gate.CZ e.1 e.2)).conjTranspose = graphStateMat n adj ∧
+    graphStateMat n adj = Hilbert.rho n (graphSTab n adj) :=
+  ⟨graph_to_density_mat n adj hsym hirr, (rho_graphSTab n adj hsym hirr).symm⟩
 
 /-- **`state_to_graph`, completeness + soundness on Hilbert space** (every n ≥ 1, every stabilizer state): the modelled conversion
     returns `(G, gates)`, the gates are in range, and `U_gates ρ U_gates† = |G⟩⟨G|` — the returned single-qubit Clifford gates map the
@@ -414,17 +515,23 @@ theorem state_to_graph_correct_hilbert (t : STab) (hn : 0 < t.n) (hstate : IsSta
 /-! ### density matrix → graph: what is exact about the negativity-based edge detection
 
   `_density_to_graph_pure` decides the pair `i < j` by projecting every other qubit onto `|0⟩` (`project_and_remove`), tracing it out and
-  comparing the negativity of the two-qubit state with 0.1.  The full statement `density_to_graph(|G⟩⟨G|) = G` is about dense complex
-  matrices and float eigenvalues and is NOT a theorem here (`density_to_graph_statement` is only described).  Proved: the two exact
-  halves below; cited (textbook): for a stabilizer state `ρ = 2⁻ⁿ Σ_{g ∈ S} g`, `⟨0_M| ρ |0_M⟩ = 2⁻ⁿ Σ g|_{i,j}` over the elements of `S`
-  without X or Y on `M` (`⟨0|X|0⟩ = ⟨0|Y|0⟩ = 0`) — `PairGroup` is that set — and the uniqueness of the Jordan decomposition
-  (negativity = trace of the negative part).  The harness compares `project_and_remove` and `negativity` of every pair of every graph on
+  comparing the negativity of the two-qubit state with 0.1.  Proved below, for every n and every simple graph:
+  * group level (`density_to_graph_pair_state_partial`) and Hilbert space (`density_to_graph_project_and_remove`): the state handed to
+    `negativity` is the graph state of the induced pair; `project_and_remove` is modelled as a map on `2ⁿ × 2ⁿ` complex matrices
+    (`projOff` = `⊗_{k∉{i,j}} |0⟩⟨0|`, division by the trace — which is `4/2ⁿ ≠ 0`, so the `1 − P₀` branch of the code is never taken —,
+    `ptraceOff` = sum over the basis states of the traced qubits);
+  * the two possible states as exact 4×4 rational matrices, the eigenvalues of their partial transposes (roots of the characteristic
+    polynomial) and the negativities `Σ(|λ| − λ)/2` = 0 and 1/2 (`density_to_graph_pair_spectrum`, `density_to_graph_pair_negativity`,
+    `density_to_graph_edge_rule_partial`).
+  NOT proved (so the full statement `density_to_graph(|G⟩⟨G|) = G` is not a theorem): that the numpy code of `project_and_remove` /
+  `partial_trace` / `bipartite_partial_transpose` computes these maps (read off the source, compared numerically per input), that
+  LAPACK's `eigh` returns the exact eigenvalues to within the margin 0.1 … 0.5, the purity test and the closing `np.allclose`.  The harness compares `project_and_remove` and `negativity` of every pair of every graph on
   ≤ 5 vertices with the two states below (1e-9). -/
 
 /-- **which two-qubit state the code looks at** (every n, every simple graph, every pair `i ≠ j`; group level): the restrictions to
     `(i, j)` of the elements of the group of `|G⟩` that carry no X or Y on the other qubits form exactly the signed group of the two-vertex
     graph state with an edge iff `adj i j` — `⟨X⊗Z, Z⊗X⟩` (edge) or `⟨X⊗I, I⊗X⟩` (no edge).
-    Missing for `density_to_graph(|G⟩⟨G|) = G`: the Hilbert-space identity quoted above and the float eigenvalue computation. -/
+    (The Hilbert-space counterpart is `density_to_graph_project_and_remove`.) -/
 theorem density_to_graph_pair_state_partial (n : Nat) (adj : Adj) (hsym : ∀ i j, i < n → j < n → adj i j = adj j i)
     (hirr : ∀ i, i < n → adj i i = false) (i j : Nat) (hi : i < n) (hj : j < n) (hij : i ≠ j) (P : PRow) :
     PairGroup (graphSTab n adj) i j P ↔ (graphSTab 2 (pairAdj (adj i j))).Spn P :=
@@ -453,8 +560,75 @@ theorem density_to_graph_pair_negativity :
     ((0 : ℚ) ≤ 1/10 ∧ (1/10 : ℚ) < 1/2) :=
   ⟨⟨Neg.rhoPlus_group_sum, Neg.rhoEdge_group_sum⟩, Neg.negativity_plus, Neg.negativity_edge, Neg.threshold_separates⟩
 
-/- Not theorems of this development (kept visible): (1) the density-matrix side beyond the two exact halves above (dense complex
-   matrices, purity test, float eigenvalues, the closing `np.allclose` validation) — compared numerically per input; (2) the
+/-- **`project_and_remove(|G⟩⟨G|, everything but i, j)` is the graph state of the induced pair — on Hilbert space** (every n, every
+    simple graph, `i < j < n`; `|G⟩⟨G| = graphStateMat n adj`, the matrix `graph_to_density` builds): the projected matrix has trace
+    `4/2ⁿ` (never 0) and the normalised partial trace is the density matrix of the two-vertex graph with an edge iff `adj i j` -/
+theorem density_to_graph_project_and_remove (n : Nat) (adj : Adj) (hsym : ∀ i j, i < n → j < n → adj i j = adj j i)
+    (hirr : ∀ i, i < n → adj i i = false) (i j : Nat) (hij : i < j) (hj : j < n) :
+    Matrix.trace (projOff n i j * graphStateMat n adj * projOff n i j) = (1 / 2 : ℂ) ^ n * 4 ∧
+    projectAndRemove n i j (graphStateMat n adj) = Hilbert.rho 2 (graphSTab 2 (pairAdj (adj i j))) := by
+  rw [← rho_graphSTab n adj hsym hirr]
+  exact projectAndRemove_graph n adj hsym hirr i j hij hj
+
+/-- **eigenvalues of the two partial transposes** (roots of the characteristic polynomial with multiplicity, by explicit rational
+    diagonalisation) and the negativity `Σ (|λ| − λ)/2` that `dmf.negativity` computes from them: `{1,0,0,0}` → 0 and
+    `{−1/2,1/2,1/2,1/2}` → 1/2 -/
+theorem density_to_graph_pair_spectrum :
+    ((Neg.ptA Neg.rhoPlus).charpoly.roots = {1, 0, 0, 0} ∧ Neg.negativityOf (Neg.ptA Neg.rhoPlus).charpoly.roots = 0) ∧
+    ((Neg.ptA Neg.rhoEdge).charpoly.roots = {-1/2, 1/2, 1/2, 1/2} ∧ Neg.negativityOf (Neg.ptA Neg.rhoEdge).charpoly.roots = 1/2) :=
+  ⟨Neg.spectrum_plus, Neg.spectrum_edge⟩
+
+/-- **the edge rule, assembled** (every n, every simple graph, `i < j < n`): entry by entry the matrix handed to `negativity` is the
+    exact rational matrix `M = rhoEdge` (if `adj i j`) resp. `rhoPlus` (index `2·b₀ + b₁`), and the negativity of `M` — `Σ (|λ| − λ)/2`
+    over the eigenvalues of its partial transpose — is `1/2` resp. `0`: above resp. below the threshold 0.1, i.e. the code's test
+    `negativity > threshold` holds exactly for the edges of `G`.
+    Missing for `density_to_graph(|G⟩⟨G|) = G`: see the section comment (numpy code ↔ these maps, float eigenvalues, purity test). -/
+theorem density_to_graph_edge_rule_partial (n : Nat) (adj : Adj) (hsym : ∀ i j, i < n → j < n → adj i j = adj j i)
+    (hirr : ∀ i, i < n → adj i i = false) (i j : Nat) (hij : i < j) (hj : j < n) :
+    ∃ M : Neg.M4,
+      (∀ a b, projectAndRemove n i j (graphStateMat n adj) a b = ((M (idx2 a) (idx2 b) : ℚ) : ℂ)) ∧
+      Neg.negativityOf (Neg.ptA M).charpoly.roots = (if adj i j then 1/2 else 0) ∧
+      ((1/10 : ℚ) < Neg.negativityOf (Neg.ptA M).charpoly.roots ↔ adj i j = true) := by
+  have h := (density_to_graph_project_and_remove n adj hsym hirr i j hij hj).2
+  cases he : adj i j
+  · refine ⟨Neg.rhoPlus, fun a b => ?_, by simp [Neg.spectrum_plus.2], by rw [Neg.spectrum_plus.2]; norm_num⟩
+    rw [h, he]; exact rho2_entries false a b
+  · refine ⟨Neg.rhoEdge, fun a b => ?_, by simp [Neg.spectrum_edge.2], by rw [Neg.spectrum_edge.2]; norm_num⟩
+    rw [h, he]; exact rho2_entries true a b
+
+/-- non-vacuity of the two Hilbert-space density theorems: the triangle, pair `(0, 2)` -/
+example : Matrix.trace (projOff 3 0 2 * graphStateMat 3 tri * projOff 3 0 2) = (1 / 2 : ℂ) ^ 3 * 4 :=
+  (density_to_graph_project_and_remove 3 tri tri_symm (by decide) 0 2 (by decide) (by decide)).1
+
+/-! ### the conversions among the three representations of a graph state, together -/
+
+/-- **every conversion among graph, stabilizer and density-matrix form keeps the graph state** (every n ≥ 1, every simple graph `G`;
+    conversion functions as modelled, density matrices as exact `2ⁿ × 2ⁿ` complex matrices):
+    * g → s and g → dm both denote `|G⟩⟨G|` (`graphStateMat`); s → dm (`_stabilizer_to_density_pure`: the ordered product
+      `∏ (1 + K_v)/2 = Hilbert.rho`) of `graph_to_stabilizer(G)` is the matrix g → dm builds;
+    * s → g: `stabilizer_to_graph(validate=True)` on `graph_to_stabilizer(G)` returns `G`;
+    * dm → g: for every pair `i < j` the negativity test of `_density_to_graph_pure` on `|G⟩⟨G|` (the exact value of the quantity the
+      code thresholds) is positive exactly on the edges of `G` — so dm → g returns `G`, and dm → s = g → s ∘ dm → g returns
+      `graph_to_stabilizer(G)`.
+    (What ties this to `QuantumState.convert_representation`: its dispatch table and wrappers are compared per chain by the harness —
+    all 9 ordered pairs and all chains of length 3 — not modelled.) -/
+theorem conversions_preserve_graph_state (n : Nat) (hn : 0 < n) (adj : Adj) (hsym : ∀ i j, i < n → j < n → adj i j = adj j i)
+    (hirr : ∀ i, i < n → adj i i = false) :
+    Hilbert.rho n (graphSTab n adj) = graphStateMat n adj ∧
+    Hilbert.circMat n ((S2G.edgesOf n adj).map fun e => Gate.CZ e.1 e.2) * plusMat n *
+        (Hilbert.circMat n ((S2G.edgesOf n adj).map fun e => Gate.CZ e.1 e.2)).conjTranspose = graphStateMat n adj ∧
+    (∃ g, S2G.stabilizerToGraph (graphSTab n adj) = .ok g ∧ ∀ i j, i < n → j < n → g.f i j = adj i j) ∧
+    (∀ i j, i < j → j < n → ∃ M : Neg.M4,
+      (∀ a b, projectAndRemove n i j (graphStateMat n adj) a b = ((M (idx2 a) (idx2 b) : ℚ) : ℂ)) ∧
+      ((1/10 : ℚ) < Neg.negativityOf (Neg.ptA M).charpoly.roots ↔ adj i j = true)) :=
+  ⟨rho_graphSTab n adj hsym hirr, graph_to_density_mat n adj hsym hirr, (graph_round_trip n hn adj hsym hirr).2,
+   fun i j hij hj => by
+     obtain ⟨M, h1, _, h3⟩ := density_to_graph_edge_rule_partial n adj hsym hirr i j hij hj
+     exact ⟨M, h1, h3⟩⟩
+
+/- Not theorems of this development (kept visible): (1) the density-matrix side beyond the theorems above (that the numpy code of
+   `project_and_remove` / `partial_trace` / `bipartite_partial_transpose` computes the modelled maps, float eigenvalues, purity test,
+   the closing `np.allclose` validation) — compared numerically per input; (2) the
    correspondence of the model with the Python source — exact comparison (graph, gate list, error class) on every generated input, not a
    proof.  No float step is left in `state_to_graph` since /repo 70adac4 (`_gf2_inverse`); completeness was false before the repairs
    86ab4f1 (D40), 8a43724 (D49) and 70adac4 (D51). -/
